@@ -30,6 +30,7 @@ PROPERTY_MODULES = {
     'C27': ['contracts.c27_options'],
     'C13': ['contracts.c13_checks'],
     'C06': ['contracts.c06_units'],
+    'C30': ['contracts.c30_cs_safe'],
 }
 
 # modules whose contracts may be used as callee contracts by any property
